@@ -1,6 +1,6 @@
 SPECIFICATION Spec
 CONSTANTS NW = 1  NR = 2  MaxW = 0  MaxI = 2  MaxJ = 0  JunkLens <- JL1
-  UseWMu = TRUE  UseRMu = TRUE  UseLk = TRUE  DeobfInLock = FALSE  JunkRetry = TRUE  UnlockOnRetry = TRUE
+  UseWMu = TRUE  UseRMu = TRUE  UseLk = TRUE  DeobfInLock = FALSE  JunkRetry = TRUE  UnlockOnRetry = TRUE  KeyOwned = TRUE
 INVARIANT NoViolation
 
 VIEW View
